@@ -80,8 +80,13 @@ def _menu():
         m = dict(pools[j][idx[j] % len(pools[j])])
         idx[j] += 1
         r = random.Random(120100 + k)
-        m["trial"] = "rhf" if m["wt"] == "restricted" else r.choice(["uhf", "uhf", "uhf", "noci"])
-        m["nelec"] = [2, 2] if m["wt"] == "restricted" else r.choice([[2, 1], [2, 2], [1, 1]])
+        if m["wt"] == "restricted":
+            # RHF trial, or (documented layout) an open- or closed-shell UHF trial with restricted walkers
+            m["trial"] = r.choice(["rhf", "rhf", "uhf"])
+            m["nelec"] = [2, 2] if m["trial"] == "rhf" else r.choice([[2, 1], [2, 2], [3, 1]])
+        else:
+            m["trial"] = r.choice(["uhf", "uhf", "uhf", "noci"])
+            m["nelec"] = r.choice([[2, 1], [2, 2], [1, 1]])
         m["norb"] = 4
         m["nchol"] = r.choice([2, 3])
         m["n_walkers"] = r.choice([4, 6, 8])
